@@ -67,7 +67,9 @@ func VerifC12Join(v *vrt.T) {
 		src := v.Choose("src", 2)
 		last[src] += int64(v.IntRange("dt", 0, 6))
 		seq[src]++
-		p := edge.NewPointMessage("m", "db", "rp", models.Dimensions{}, models.Fields{"v": seq[src]}, models.Tags{}, time.Unix(0, last[src]).UTC())
+		// the parents carry different measurement names: the joined point is named after the
+		// lowest-index parent present in the set (streamName is unset), whatever arrived first
+		p := edge.NewPointMessage([]string{"ma", "mb"}[src], "db", "rp", models.Dimensions{}, models.Fields{"v": seq[src]}, models.Tags{}, time.Unix(0, last[src]).UTC())
 		v.Assert(n.Point(src, p) == nil, "no error")
 		ins[src] = append(ins[src], verifJoinIn{verifRoundRef(last[src], int64(tol)), seq[src]})
 	}
@@ -127,11 +129,15 @@ func VerifC12Join(v *vrt.T) {
 				f := p.Fields()
 				av, aok := f["a.v"]
 				bv, bok := f["b.v"]
-				if aok && bok && len(f) == 2 && av == w.av && bv == w.bv && p.Time().UnixNano() == w.t {
+				wantName := "ma"
+				if w.av == nil || (fillKind == 2 && w.av == interface{}(int64(-7))) {
+					wantName = "mb" // only parent b is present in this set
+				}
+				if aok && bok && len(f) == 2 && av == w.av && bv == w.bv && p.Time().UnixNano() == w.t && p.Name() == wantName {
 					found++
 				}
 			}
-			v.Assert(found == 1, "each reference pair appears exactly once with prefixed fields and the rounded time")
+			v.Assert(found == 1, "each reference pair appears exactly once with prefixed fields, the rounded time and the name of the first present parent")
 		}
 	}
 	v.Reach("end")
